@@ -341,10 +341,10 @@ class C04(QProp):
 
 
 class C09(QProp):
-    """Theorems (Props/C09.lean): all ordered pairs of K/°C/°F with any SI prefixes and every magnitude convert through kelvin by the defining formulas; chains of any length compose; exactly invertible; an offset scale not alone with power one (source or target) is refused, products/quotients with one are refused. Correspondence: all pairs incl. prefixed spellings, chains, compound uses."""
+    """Theorems (Props/C09.lean): all ordered pairs of K/°C/°F with any SI prefixes and every magnitude convert through kelvin by the defining formulas; chains of any length compose; exactly invertible; an offset scale not alone with power one (source or target) is refused, products/quotients with one are refused. Correspondence: all pairs incl. prefixed spellings, chains, compound uses. Full language (Props/FullQuery.lean): `C09_query_nested*` — temperature leaves and casts inside larger expressions and calls, with the refusals for arbitrary operand expressions."""
     id = "C09"
     module = "Anything.Props.C09"
-    extra_modules = ["Anything.Props.C09Query"]
+    extra_modules = ["Anything.Props.C09Query", "Anything.Props.FullQuery"]
     trusted = ["Spec.SI.pointToKelvin over the extracted affine parameters"]
 
     def cases(self, rng, tier):
@@ -425,10 +425,10 @@ class _OffsetLaws:
 
 
 class C13(_OffsetLaws, QProp):
-    """Theorems (Props/C13.lean): `+ - * /` on proportional quantities refine the specification's SI operations, hence commutativity, associativity, distributivity, a-a = 0, a/a = 1 for the evaluator's results; products stay proportional; every shipped fact is in scope (kernel check over the regenerated facts table). Offset scales excluded (recorded finding). Correspondence: both sides of every law on literals and shipped facts, all pairs of units in both orders, a reference-driven pair sweep. End to end: `C13_query` — the SI reading of any in-scope quantity expression written as text is the specification's denotation, hence the laws hold for whole queries. Unified language (Props/UnifiedQuery.lean): `C13_query_unified` — every well-formed expression over literals with units AND fact phrases, as TEXT, answers the specification's SI value and dimensions."""
+    """Theorems (Props/C13.lean): `+ - * /` on proportional quantities refine the specification's SI operations, hence commutativity, associativity, distributivity, a-a = 0, a/a = 1 for the evaluator's results; products stay proportional; every shipped fact is in scope (kernel check over the regenerated facts table). Offset scales excluded (recorded finding). Correspondence: both sides of every law on literals and shipped facts, all pairs of units in both orders, a reference-driven pair sweep. End to end: `C13_query` — the SI reading of any in-scope quantity expression written as text is the specification's denotation, hence the laws hold for whole queries. Unified language (Props/UnifiedQuery.lean): `C13_query_unified` — every well-formed expression over literals with units AND fact phrases, as TEXT, answers the specification's SI value and dimensions. Full language (Props/FullQuery.lean): `C13_query_full` — ONE theorem for the whole expression language as text."""
     id = "C13"
     module = "Anything.Props.C13"
-    extra_modules = ["Anything.Props.QuantityQuery", "Anything.Props.UnifiedQuery"]
+    extra_modules = ["Anything.Props.QuantityQuery", "Anything.Props.UnifiedQuery", "Anything.Props.FullQuery"]
     needs_db_tables = True
     compare_unit = False
     trusted = ["Spec.SI over the extracted table", "facts are read through the real database lookup"]
